@@ -4,12 +4,13 @@ import ChessVerif.Lemmas.GeomBridge3
 import ChessVerif.Lemmas.GeomBridge4
 import ChessVerif.Lemmas.GeomBridge5
 import ChessVerif.Lemmas.GeomBridge6
+import ChessVerif.Lemmas.GeomBridge7
 /-
 Bridge library between the `Geom` bitboards and the coordinate / direction predicates of
 `Spec/Rules.lean`.  Import this file.
 
 * `GeomBridge1`: `mem_setOf` and `mem_<table>` for every `setOf` table; coordinates (`Sq.coord_bounds`,
-  `Sq.ext_coord`, `sq?_eq_some`, `step?_eq_some`, `onRay_iff`); `ray_dir_unique`, `step?_inj`.
+  `Sq.ext_coord`, `sq?_eq_some_iff`, `step?_eq_some`, `onRay_iff`); `ray_dir_unique`, `step?_inj`.
 * `GeomBridge2`: `mem_ray`, `ray_getElem?` (nearest first), `ray_nodup`; `mem_walkL`, `mem_walkL_idx`,
   `mem_walkL_ray`, `getLsbD_sliderWalk`.
 * `GeomBridge3`: `strictlyBetween_iff` (direction form), `strictlyBetween_eq_spec`, `aligned_iff`.
@@ -20,6 +21,8 @@ Bridge library between the `Geom` bitboards and the coordinate / direction predi
   `mem_king_spec`, `knight_not_aligned`, `mem_pawnAttacks_symm`, `between_symm`.
 * `GeomBridge6`: `mem_line_iff`, `mem_line_iff_between`, `line_symm`; `uup/udown/uleft/uright/
   uforward/ubackward` in coordinates and as `Geom.step` / `Geom.stepWrap`.
+* `GeomBridge7`: `BB.eq_zero_iff`, `between_and_eq_zero_iff`, `mem_sliderWalk_between`,
+  `mem_sliderWalk_symm`, `Geom.step_eq_some`, `mem_pawnQuiets`, `mem_pawnQuiets_coord`.
 -/
 namespace Chess
 
